@@ -123,7 +123,9 @@ def run(ctx):
     parts = split_trace(ctx, trace, 6 if th else 3)
     ntr = res["replayed"]
     cnt = res.get("counters", {})
+    cadence = 0
     for part, tv in validate_parts(ctx, parts, "trace validation"):
+        cadence += sum(1 for l in tv.printed if "CADENCE_DEVIATION" in l)
         if not tv.violated:
             continue
         keep = ctx.save("rejected_trace.ndjson", open(part).read())
@@ -134,7 +136,9 @@ def run(ctx):
         lines = open(part).read().splitlines()
         ctxt = []
         if line and 1 <= line <= len(lines) + 1:
-            i = min(line, len(lines)) - 1
+            # an invariant fails in the state *after* the offending line was consumed
+            i = min(line - 1 if (tv.violated or "").startswith("invariant") else line, len(lines)) - 1
+            i = max(i, 0)
             j = i
             while j > 0 and '"ev":"Open"' not in lines[j]:
                 j -= 1
@@ -145,6 +149,11 @@ def run(ctx):
             what, tv.violated, ctxt[-1][:600] if ctxt else "?"), keep)
         ntr = 0
         break
+    if cadence and not ctx.violations:
+        # the property does not fix where crc32 / rotate records go, so this is not an alarm; but the
+        # model-checked instance no longer transcribes the code
+        raise Infra("the code places crc32/rotate records differently from FsBinlog.tla's CodedCrc/CodedRot "
+                    "(%d appends): re-transcribe putLevToBuffer" % cadence)
     ctx.ev.add_impl("fsbinlog write histories + audits accepted by FsBinlogTrace", ntr, steps=cnt.get("events", 0),
                     from_tlc_behaviours=cnt.get("from_tlc", 0), random=res["replayed"] - cnt.get("from_tlc", 0),
                     reads=cnt.get("ev_Read", 0), commits=cnt.get("ev_Commit", 0), appends=cnt.get("ev_AppendCall", 0))
